@@ -3,7 +3,17 @@
 import collections, glob, json, os, subprocess
 root = os.path.dirname(os.path.dirname(os.path.abspath(__file__)))
 rows = []
+own_runs = collections.OrderedDict()
 for f in sorted(glob.glob(os.path.join(root, "seeded/matrix/*.txt"))):
+    base = os.path.basename(f)
+    if base.startswith("own_"):
+        # own-property re-runs: own_<label>_partN.txt
+        label = base[4:].rsplit("_part", 1)[0]
+        for l in open(f):
+            r = l.split()
+            if len(r) >= 5 and r[2].startswith("rc="):
+                own_runs.setdefault(label, {})[r[0]] = (int(r[3].split("=")[1]), int(r[4].split("=")[1]))
+        continue
     for l in open(f):
         r = l.split()
         if len(r) >= 5 and r[2].startswith("rc="):
@@ -13,6 +23,12 @@ for r in rows:
     m, p = r[0], r[1]
     v = int(r[3].split("=")[1]); ni = int(r[4].split("=")[1])
     by.setdefault(m, {})[p] = (v, ni)
+only_own = set()
+for label, d in own_runs.items():
+    for m, v in d.items():
+        if m not in by or m in only_own:
+            by.setdefault(m, {})[m[:3]] = v
+            only_own.add(m)
 out = ["# Seeded changes and the checks that catch them", "",
        "Each directory `Cxx-mN/` holds one change to orx-parallel that breaks property `Cxx` while the crate still",
        "compiles and its 184 tests + 55 doctests still pass: `patch.diff`, `demo.rs` (an integration test that fails with the",
@@ -36,9 +52,22 @@ for m in sorted(by, key=lambda x: (x[:3], int(x.split("-m")[1]))):
     hit += o[0] > 0
     out.append("| %s | %s | %s | %s | %s |" % (m, meta.get("what_it_changes", "").replace("|", "/")[:260],
                                              meta.get("needs_in_order_to_manifest", "").replace("|", "/")[:200],
-                                             ("fires" + ("*" if o[1] and o[1] == o[0] else "")) if o[0] > 0 else "**silent**", " ".join(fired)))
+                                             ("fires" + ("*" if o[1] and o[1] == o[0] else "")) if o[0] > 0 else "**silent**",
+                                             "(own check only, see below)" if m in only_own else " ".join(fired)))
 out += ["", "Own-property check fires for %d of %d changes in the matrix files." % (hit, len(by)), ""]
-missing = sorted(set(os.path.basename(os.path.dirname(p)) for p in glob.glob(os.path.join(root, "seeded/C*-m*/meta.json"))) - set(by))
+if own_runs:
+    out += ["## Own-property re-runs", "",
+            "Every change against the quick check of its own property only (`MATRIX_OWN=1 tools/matrix.sh`), at later commits of",
+            "`/verif` and with other seeds (the label names commit and seed).", "",
+            "| run | changes | own check fires | silent |", "|---|---|---|---|"]
+    for label, d in own_runs.items():
+        sil = sorted(m for m in d if d[m][0] == 0)
+        out.append("| %s | %d | %d | %s |" % (label, len(d), sum(1 for m in d if d[m][0] > 0), ", ".join(sil) if sil else "-"))
+    out.append("")
+covered = set(by)
+for d in own_runs.values():
+    covered |= set(d)
+missing = sorted(set(os.path.basename(os.path.dirname(p)) for p in glob.glob(os.path.join(root, "seeded/C*-m*/meta.json"))) - covered)
 if missing:
     out += ["Not in the matrix files (checked individually with `tools/try_check.sh`, see DESIGN.md section 10): " + ", ".join(missing), ""]
 open(os.path.join(root, "seeded/README.md"), "w").write("\n".join(out))
